@@ -11,7 +11,7 @@ Example ex_bytes_ok : bytes_ok [97; 34; 195; 169; 10; 240; 159; 152; 128; 195].
 Proof. repeat constructor; lia. Qed.
 (* the text a, quote, e-acute, newline, U+1F600, then a truncated sequence; JSON quoting, UTF-8 mode *)
 Example ex_quote : QuoteForJSON [97; 34; 195; 169; 10; 240; 159; 152; 128; 195] false
-  = Ok [34; 97; 92; 34; 195; 169; 92; 110; 240; 159; 152; 128; 195; 34].
+  = Ok [34; 97; 92; 34; 195; 169; 92; 110; 240; 159; 152; 128; 92;117;70;70;70;68; 34].
 Proof. vm_compute. reflexivity. Qed.
 Example ex_quote_ascii : QuoteForJSON [240; 159; 152; 128; 195] true
   = Ok [34; 92;117;68;56;51;68; 92;117;68;69;48;48; 92;117;70;70;70;68; 34].
@@ -132,3 +132,15 @@ Proof. vm_compute. reflexivity. Qed.
 (* the name a, escape 41 (A), b : "aAb" *)
 Example ex_css_name : exists l, run_name [97;92;52;49;32;98;59] = Ok ([97;65;98], l).
 Proof. eexists. vm_compute. reflexivity. Qed.
+
+From V Require Import C16.Globstar C16.GlobstarProofs.
+(* the glob "**/*.{css,scss" : globstar, segment, escaped dot and brace, literals *)
+Example ex_globstar : globstarToEscapedRegexp [42;42;47;42;46;123;99;115;115;44;115;99;115;115]
+  = Ok (([94] ++ gs_globstar ++ gs_segment ++ [92;46;92;123;99;115;115;44;115;99;115;115;36])%list, true).
+Proof. vm_compute. reflexivity. Qed.
+(* the WTF-8 bytes of a lone surrogate are copied unchanged: structurally well-formed, not valid UTF-8 -
+   the real regexp package rejects it (replayed on the real code: finding C16-regexp-invalid-utf8) *)
+Example ex_globstar_surrogate : globstarToEscapedRegexp [237;160;128;46;106;115] = Ok ([94;237;160;128;92;46;106;115;36], false).
+Proof. vm_compute. reflexivity. Qed.
+Example ex_regexp_sites : existsb (fun s => re_must s && negb (re_const s)) regexp_sites = true.
+Proof. vm_compute. reflexivity. Qed.
